@@ -565,6 +565,9 @@ def judge_exchange(msgs, exch, local, name, req_side='A', res_side='B', offer=No
                 p[0], exp['number'])))
         if group is not None and res['ke'] != group:
             bad.append((name + '.reply', cls, 'KE-in-other-group', 'reply KE group %r, suite group %d' % (res['ke'], group)))
+        if group is None and res['ke'] is not None and exch != 34:
+            bad.append((name + '.reply', cls, 'KE-without-DH-transform', 'the chosen suite %s has no DH transform but the reply '
+                        'carries a KE payload (group %r)' % (show(sorted(exp['suite'])), res['ke'])))
         return 'chosen', exp['suite'], rounds, bad
     return 'none', None, rounds, [(name + '.request', 'any', 'no-request', 'no request seen')]
 
